@@ -3,7 +3,7 @@
 import json
 from harness import common
 from harness.props import c01_regen
-from harness.c01_pool import POOL, PURE_HINT, RATE_CONSTRAINED, UNOPS_OPAQUE, BINOPS_ARITH, BINOPS_OPAQUE
+from harness.c01_pool import POOL, PURE_HINT, RATE_CONSTRAINED, UNOPS_OPAQUE, BINOPS_ARITH, BINOPS_OPAQUE, CHAIN_CLASSES
 
 CONSTS = [(0, 1), (1, 1), (-1, 1), (2, 1), (-2, 1), (1, 2), (1, 4), (3, 1), (440, 1), (-1, 2), (5, 1), (3, 4)]
 
@@ -53,8 +53,27 @@ class GraphGen:
         for _ in range(n):
             i = base + len(events)
             x = r.random()
-            if x < 0.28 or not vals:
-                cls = r.choice(list(POOL))
+            if x < 0.04 and known['ar']:
+                # an FFT chain: local buffer (or a numbered buffer), FFT, spectral units, IFFT
+                def push(ev, nres=1):
+                    events.append(ev)
+                    return ['r', base + len(events) - 1, 0]
+                if r.random() < 0.7:
+                    buf = push({'t': 'localbuf', 'frames': ['n', r.choice([512, 1024, 2048]), 1], 'channels': ['n', 1, 1]})
+                else:
+                    buf = ['n', r.randrange(0, 16), 1]
+                sig = r.choice(known['ar'])
+                chain = push({'t': 'atom', 'cls': 'FFT', 'ctor': 'kr',
+                              'ins': [buf, ['r', sig[0], sig[1]], ['n', 1, 2], ['n', 0, 1], ['n', 1, 1], ['n', 0, 1]]})
+                for _k in range(r.randint(0, 2)):
+                    cls = r.choice(['PV_MagAbove', 'PV_BrickWall'])
+                    chain = push({'t': 'atom', 'cls': cls, 'ctor': 'new', 'ins': [chain, pick(0.6)]})
+                if r.random() < 0.3 and r.random() < 0.5:
+                    chain = push({'t': 'atom', 'cls': 'PV_MagMul', 'ctor': 'new', 'ins': [chain, chain]})
+                y = push({'t': 'atom', 'cls': 'IFFT', 'ctor': 'ar', 'ins': [chain, ['n', 0, 1], ['n', 0, 1]]})
+                vals.append((y[1], 0)); known['ar'].append((y[1], 0))
+            elif x < 0.28 or not vals:
+                cls = r.choice([c for c in POOL if c not in CHAIN_CLASSES])
                 mod, ctors, nargs, nres = POOL[cls]
                 ins = []
                 ctor = r.choice(ctors)
@@ -170,9 +189,13 @@ def model_lines(prog, flags):
                 mod, ctors, nargs, nres = POOL[e['cls']]
                 f = {'cls': e['cls'], 'rate': 'ir' if e['ctor'] == 'new' else e['ctor'],
                      'dce': int(e['cls'] in PURE_HINT), 'multi': int(nres > 1 or e['cls'] == 'DC'),
-                     'nout': nres or 1, 'isugen': int(nres > 0), 'wf': int(nres == 0), 'check': 'valid'}
+                     'nout': nres or 1, 'isugen': int(nres > 0), 'wf': int(nres == 0), 'check': 'valid',
+                     'ret': int(nres > 0)}
             lines.append(' '.join(['atom', f['cls'], f['rate'], str(f['dce']), str(f['multi']), str(f['nout']),
-                                   str(f['isugen']), str(f['wf']), f['check']] + [arg_str(a) for a in e['ins']]))
+                                   str(f['isugen']), str(f['wf']), str(f.get('ret', 1)), f['check']]
+                                  + [arg_str(a) for a in e['ins']]))
+        elif t == 'localbuf':
+            lines.append(f'localbuf {arg_str(e["frames"])} {arg_str(e["channels"])}')
         elif t == 'unop':
             lines.append(f'unop {e["sel"]} {arg_str(e["a"])}')
         elif t == 'binop':
